@@ -10,6 +10,14 @@ NOT_BUILT = "rules designed (DESIGN.md sections 3-4) but not built yet; not clai
 
 # property -> (technique, level text, level note, design ref)
 CLAIMED = {
+ "C10": ("must-pass-through checks on the SSA CFG of the scope-exit functions, def-use checks of truncation targets, who-may-write on the compile-time height, call-site presence and guard-predicate agreement between the push and close sites",
+         "Completeness of the to-be-closed plumbing: each check is a necessary condition (a scope exit without truncation, a wrong truncation target, a second writer of the height, a missing cleanup site, or a predicate mismatch each change which handlers run). Exactly-once/order over all nestings is not decided.",
+         "Trusted: go/ssa. Not decided: exactly-once and reverse order over all nestings; the error argument.",
+         "DESIGN.md 3 (R-CLOSE), 4 (C10)"),
+ "C16": ("def-use provenance of held registers (must come from GetFreeRegister), ordering checks in the loop compiler, dependency-presence of limit and overflow comparisons for every store to the hidden counter, error-exit presence in the prepare branch",
+         "Structural part only: control expressions held privately, fresh loop variable per iteration, error exits, presence of both comparisons on every counter update. The arithmetic progression itself is value-level and not decided.",
+         "Trusted: go/ssa. Not decided: correctness of the comparisons, float-limit clipping, iteration counts.",
+         "DESIGN.md 3 (R-FOR), 4 (C16)"),
  "C07": ("def-use dependency slices on SSA (what the stored limits depend on), pruned-CFG reachability for 'refresh on every path when time is tracked', who-may-write table for the status field, after-call effect analysis in CallContext, monotone-flag check",
          "Dependency-presence and ownership conditions: breaking any one lets a child context exceed what its parent has left, keeps consumption from being charged back, or lets Lua run with limits switched off / a wrong status be reported. The numeric limit algebra is not decided.",
          "Trusted: go/ssa def-use. Not decided: uint64 limit arithmetic with 0 = unlimited.",
